@@ -16,7 +16,7 @@ counts by THOROUGH_FACTOR and runs the larger sweep grids under more schedules.
 THOROUGH_FACTOR = 24
 
 RUNTIME = {
-    'C01': [('random', 'vwin', 2000, 'trace'), ('random', 'big', 2500, 'trace'), ('random', 'ties', 12000, 'trace'), ('random', 'generic', 6000, 'trace'),
+    'C01': [('sweep', 'gap', 3, 'trace'), ('random', 'vwin', 2000, 'trace'), ('random', 'big', 2500, 'trace'), ('random', 'ties', 12000, 'trace'), ('random', 'generic', 6000, 'trace'),
             ('random', 'nesting', 6000, 'trace'), ('random', 'windows', 3000, 'trace'),
             ('random', 'forever', 2000, 'trace'), ('sweep', 'tie', 4, 'trace'),
             ('suite',)],
